@@ -74,44 +74,103 @@ mod verif_kani {
     }
 
     // ---------------------------------------------------------------- C20 containers: bounded
-    #[kani::proof]
-    #[kani::unwind(20)]
-    #[kani::stub(core::panic::Location::caller, stub_caller)]
-    fn c20_vec_u8_roundtrip_len4() {
-        let a: [u8; 4] = kani::any();
-        let n: usize = kani::any();
-        kani::assume(n <= 4);
-        let v = a[..n].to_vec();
+    // (lengths are enumerated concretely; no unwrap() on Result<_, DbError>: formatting the error for the
+    //  panic message dominates CBMC's time)
+    fn roundtrip_vec_u8(v: Vec<u8>) {
         let b = v.serialize();
         assert!(b.len() as u64 == v.serialized_size());
-        assert!(Vec::<u8>::deserialize(&b).unwrap() == v);
+        match Vec::<u8>::deserialize(&b) {
+            Ok(d) => {
+                assert!(d.len() == v.len());
+                let mut i = 0;
+                while i < v.len() {
+                    assert!(d[i] == v[i]);
+                    i += 1;
+                }
+            }
+            Err(_) => assert!(false),
+        }
     }
 
     #[kani::proof]
     #[kani::unwind(20)]
     #[kani::stub(core::panic::Location::caller, stub_caller)]
+    fn c20_vec_u8_roundtrip_len3() {
+        roundtrip_vec_u8(vec![]);
+        roundtrip_vec_u8(vec![kani::any()]);
+        roundtrip_vec_u8(vec![kani::any(), kani::any()]);
+        roundtrip_vec_u8(vec![kani::any(), kani::any(), kani::any()]);
+    }
+
+    fn roundtrip_vec_u64(v: Vec<u64>) {
+        let b = v.serialize();
+        assert!(b.len() as u64 == v.serialized_size());
+        match Vec::<u64>::deserialize(&b) {
+            Ok(d) => {
+                assert!(d.len() == v.len());
+                let mut i = 0;
+                while i < v.len() {
+                    assert!(d[i] == v[i]);
+                    i += 1;
+                }
+            }
+            Err(_) => assert!(false),
+        }
+    }
+
+    #[kani::proof]
+    #[kani::unwind(20)]
+    #[kani::stub(core::panic::Location::caller, stub_caller)]
+    #[kani::stub(alloc::fmt::format, stub_format)]
     fn c20_vec_u64_roundtrip_len2() {
-        let a: [u64; 2] = kani::any();
-        let n: usize = kani::any();
-        kani::assume(n <= 2);
-        let v = a[..n].to_vec();
-        let b = v.serialize();
-        assert!(b.len() as u64 == v.serialized_size());
-        assert!(Vec::<u64>::deserialize(&b).unwrap() == v);
+        roundtrip_vec_u64(vec![]);
+        roundtrip_vec_u64(vec![kani::any()]);
+        roundtrip_vec_u64(vec![kani::any(), kani::any()]);
     }
 
-    #[kani::proof]
-    #[kani::unwind(20)]
-    #[kani::stub(core::panic::Location::caller, stub_caller)]
-    fn c20_string_roundtrip_ascii_len3() {
-        let a: [u8; 3] = kani::any();
-        let n: usize = kani::any();
-        kani::assume(n <= 3);
-        kani::assume(a[0] < 128 && a[1] < 128 && a[2] < 128);
-        let s = String::from_utf8(a[..n].to_vec()).unwrap();
+    // strings built from arbitrary `char`s (1..4 bytes each: the number of chars differs from the number
+    // of bytes); std's UTF-8 validation in the decoder is stubbed to accept (the input is valid by
+    // construction), everything else is the real code
+    fn roundtrip_string(s: String) {
         let b = s.serialize();
         assert!(b.len() as u64 == s.serialized_size());
-        assert!(String::deserialize(&b).unwrap() == s);
+        match String::deserialize(&b) {
+            Ok(d) => assert!(d.as_bytes() == s.as_bytes()),
+            Err(_) => assert!(false),
+        }
+    }
+
+    // one arbitrary char of each UTF-8 length class (the byte length is a constant per call)
+    fn one_char(len: usize) {
+        let c: char = kani::any();
+        kani::assume(c.len_utf8() == len);
+        let s = String::from(c);
+        let b = s.serialize();
+        assert!(b.len() as u64 == s.serialized_size());
+        assert!(b.len() == 8 + len);
+        match String::deserialize(&b) {
+            Ok(d) => {
+                assert!(d.len() == len);
+                let mut i = 0;
+                while i < len {
+                    assert!(d.as_bytes()[i] == s.as_bytes()[i]);
+                    i += 1;
+                }
+            }
+            Err(_) => assert!(false),
+        }
+    }
+
+    #[kani::proof]
+    #[kani::unwind(20)]
+    #[kani::stub(core::panic::Location::caller, stub_caller)]
+    #[kani::stub(core::str::from_utf8, stub_from_utf8_valid)]
+    fn c20_string_roundtrip_chars2() {
+        roundtrip_string(String::new());
+        one_char(1);
+        one_char(2);
+        one_char(3);
+        one_char(4);
     }
 
     // ---------------------------------------------------------------- C21 / C07: arbitrary bytes never panic
